@@ -90,7 +90,7 @@ Definition raise_within (np_only : bool) (s s' : state) : Prop :=
 
 Definition ledger_nonneg (s : state) : bool := forallb (fun e => rq_nonneg (e_charge e)) (s_ledger s).
 
-Definition admits_ok (P : job -> bool) (xs : list step) : Prop :=
+Definition accepts_ok (P : job -> bool) (xs : list step) : Prop :=
   forall j, In (AdmitJob j) xs -> P j = true.
 
 (** the full-strength statement (for [np_only] = false: C08_limit, true:
@@ -101,7 +101,7 @@ Definition admits_ok (P : job -> bool) (xs : list step) : Prop :=
 Definition C08_statement (np_only : bool) : Prop :=
   forall (fuel : nat) (s0 s s' : state) (pre : list step) (x : step),
     wf_forest (s_queues s0) = true -> counters_exact s0 -> ledger_nonneg s0 = true ->
-    admits_ok wf_job (pre ++ [x]) ->
+    accepts_ok wf_job (pre ++ [x]) ->
     run fuel s0 pre = Done s -> do_step fuel s x = Done s' ->
     raise_within np_only s s'.
 
@@ -109,6 +109,6 @@ Definition C08_statement (np_only : bool) : Prop :=
 Definition C08_statement_covered (np_only : bool) : Prop :=
   forall (fuel : nat) (s0 s s' : state) (pre : list step) (x : step),
     wf_forest (s_queues s0) = true -> counters_exact s0 -> ledger_nonneg s0 = true ->
-    admits_ok wf_job (pre ++ [x]) -> admits_ok covered [x] ->
+    accepts_ok wf_job (pre ++ [x]) -> accepts_ok covered [x] ->
     run fuel s0 pre = Done s -> do_step fuel s x = Done s' ->
     raise_within np_only s s'.
